@@ -112,3 +112,29 @@ Proof.
   intros H. unfold vm_roots. apply in_or_app. right. apply in_or_app. right. apply in_or_app. left.
   rewrite H. cbn [open_chain]. left. reflexivity.
 Qed.
+
+(* ---- instruction boundaries of a run ---- *)
+(* one instruction of the real (nested) semantics: natives re-enter the interpreter through [run_at] *)
+Lemma step_run_at_closed F bld P max_instr depth ip s : state_closed s ->
+  sres_c (hl s) (step F bld P (run_at F bld P false max_instr depth) ip s).
+Proof. intros Hs. apply step_closed; [|exact Hs]. intros ip' s' Hs'. apply run_at_closed. exact Hs'. Qed.
+
+(* [boundary s s']: [s'] is the machine state at an instruction boundary of an execution that starts in [s] - any
+   sequence of instructions at any instruction pointers (so: any bytecode, any control flow), with the bookkeeping
+   of the dispatch loop (budget counter, ghost instruction counter) in between *)
+Inductive boundary (F : fops) (bld : build) (P : program) (max_instr : N) : state -> state -> Prop :=
+| bd_here s : boundary F bld P max_instr s s
+| bd_step s depth ip ip' s1 s2 :
+    step F bld P (run_at F bld P false max_instr depth) ip s = SNext ip' s1 ->
+    boundary F bld P max_instr s1 s2 -> boundary F bld P max_instr s s2
+| bd_tick s r s2 : boundary F bld P max_instr (tick (set_rem s r)) s2 -> boundary F bld P max_instr s s2.
+
+Lemma boundary_closed F bld P max_instr s s' :
+  boundary F bld P max_instr s s' -> state_closed s -> state_closed s' /\ hl s <= hl s'.
+Proof.
+  induction 1 as [s|s depth ip ip' s1 s2 Hstep _ IH|s r s2 _ IH]; intros Hs.
+  - split; [exact Hs|lia].
+  - pose proof (step_run_at_closed F bld P max_instr depth ip s Hs) as H. rewrite Hstep in H. destruct H as [A B].
+    destruct (IH A) as [C D]. split; [exact C|lia].
+  - apply IH. apply closed_tick, closed_set_rem. exact Hs.
+Qed.
